@@ -78,7 +78,31 @@ class GraphModel(Analysis):
     def on_store_name(self, ip, node, name, val, st, fr):
         if isinstance(node, ast.AugAssign):
             self.ev(ip, 'AUG', node, st, fr, name=name, val=val, marked=st.a('m'))
+            snap = st.a('snap')
+            if snap and snap[1] == name and isinstance(node.op, ast.Add) and fr.depth == 0:
+                # the counter has moved since its value was saved
+                return st.with_var(fr.fid, name, val).set(snap=(snap[0], snap[1], True))
+            return None
+        if isinstance(node, ast.Assign) and isinstance(node.value, ast.Name) and fr.depth == 0 \
+                and (val[0] in ('pos', 'acc') or (val[0] == 'const' and isinstance(val[1], int)
+                                                 and not isinstance(val[1], bool))):
+            # `before = counter`: a snapshot of a counter (the abstract values of the two cannot tell whether the
+            # counter has moved since; this relation can)
+            return st.with_var(fr.fid, name, val).set(snap=(name, node.value.id, False))
         return None
+
+    def on_branch(self, ip, node, term, val, st, fr):
+        snap = st.a('snap')
+        if snap and isinstance(node, ast.Compare) and len(node.ops) == 1 and isinstance(node.left, ast.Name) \
+                and isinstance(node.comparators[0], ast.Name) and fr.depth == 0 \
+                and {node.left.id, node.comparators[0].id} == {snap[0], snap[1]} \
+                and isinstance(node.ops[0], (ast.Eq, ast.NotEq)) and term[0] == 'cmp':
+            # counter == snapshot  <=>  the counter has not been incremented since the snapshot
+            same = not snap[2]
+            holds = same if term[1] == '==' else (not same)
+            if holds != val:
+                return None
+        return st
 
     def on_call(self, ip, node, fterm, args, kws, st, fr):
         if fterm[0] == 'attr' and fterm[2] in self.no_inline and args and args[0][0] == 'const' \
